@@ -25,7 +25,7 @@ def write(p, path):
     L.append("[Depth]       =  %s" % g(p.get("depth", 1)))
     L.append("[LengthUnits] =  %s" % p.get("units", "millimeters"))
     L.append("[ProblemType] =  %s" % p.get("problemtype", "planar"))
-    L.append("[Coordinates] =  cartesian")
+    L.append("[Coordinates] =  %s" % p.get("coordinates", "cartesian"))
     if kind == "fem":
         L.append("[ACSolver]    =  0")
         L.append("[PrevType]    =  0")
